@@ -85,6 +85,8 @@ pub use types::{
 #[macro_export]
 macro_rules! wallet_lock {
 	($wallet_inst: expr, $wallet: ident) => {
+		#[cfg(feature = "verif_hooks")]
+		let _verif_scope = $crate::verif::lock_scope();
 		let inst = $wallet_inst.clone();
 		let mut w_lock = inst.lock();
 		let w_provider = w_lock.lc_provider()?;
